@@ -3,6 +3,7 @@ import ServiceModel.Properties.C20
 import ServiceModel.Properties.C17
 import ServiceModel.Properties.C10
 import ServiceModel.Properties.C12
+import ServiceModel.Proofs.RestartStable
 /-!
 # Non-vacuity: the hypotheses of the property theorems are met by concrete, non-trivial reachable states
 
@@ -189,5 +190,12 @@ theorem reachableR_of_reachable {s : State} (h : Reachable cfg0 p0 1 0 s) : Reac
 theorem sR_reachableR : ReachableR cfg0 p0 1 0 sR :=
   ReachableR.restart 1 0 (reachableR_of_reachable s2_reachable) sR_is_restart
 example : (restart (runOps sR opsR) 7 0).isSome = true := by decide
+
+/-- … and `ContinuesR` is inhabited by a chain that really restarts: from `s2` through the restart to `sR`; the
+    binding of `s2` is read back with its deposit and owner, as `C15.stable_across_restarts` and
+    `C19.restart_gives_back_the_same_records` say -/
+theorem s2_continues_to_sR : ContinuesR (fun _ => True) s2 sR := ContinuesR.restart 1 0 ContinuesR.refl sR_is_restart
+example : (get s2.bindings ("svc", "p")).isSome = true ∧ get sR.bindings ("svc", "p") = get s2.bindings ("svc", "p") ∧
+    (get s2.owner "p").isSome = true ∧ get sR.owner "p" = get s2.owner "p" := by decide
 
 end SM.NonVacuity
